@@ -643,7 +643,11 @@ def _emap(f, *xs):
     out = _np.empty(bs[0].shape, dtype=_b.object)
     for idx in _np.ndindex(bs[0].shape):
         out[idx] = f(*[b[idx] for b in bs])
-    return _ret(out)
+    r = _ret(out)
+    x0 = xs[0]
+    if hasattr(x0, "_from_ufunc") and isinstance(r, NDArr):
+        return x0._from_ufunc(r)  # numpy ufuncs return a Series / DataFrame for pandas input
+    return r
 
 
 def _abs1(v):
@@ -742,19 +746,26 @@ UF_ARCCOS = z3.Function("np_arccos", _R, _R)
 UF_SIN = z3.Function("np_sin", _R, _R)
 
 
-def _uf1(F, pyf):
+def _uf1(F, pyf, axiom=None):
     def f(v):
         if _isnanv(v):
             return nan
-        if is_sym(v):
-            return wrap(F(zreal(v)))
-        return wrap(F(zreal(v)))
+        e = zreal(v)
+        r = F(e)
+        if axiom is not None and Ctx.cur is not None:
+            c = Ctx.cur
+            key = ("ax", F.name(), e.get_id())
+            if key not in c.sqrt_seen:
+                c.sqrt_seen[key] = e
+                c.add(axiom(e, r))  # ground instance of a sound fact about the real function
+                c._model = None
+        return wrap(r)
 
     return lambda x: _emap(f, x)
 
 
-log = _uf1(UF_LOG, _math.log)
-exp = _uf1(UF_EXP, _math.exp)
+log = _uf1(UF_LOG, _math.log, lambda x, r: z3.Implies(x > 0, UF_EXP(r) == x))
+exp = _uf1(UF_EXP, _math.exp, lambda x, r: z3.And(r > 0, UF_LOG(r) == x))
 cos = _uf1(UF_COS, _math.cos)
 sin = _uf1(UF_SIN, _math.sin)
 arccos = _uf1(UF_ARCCOS, _math.acos)
